@@ -626,3 +626,24 @@ func newVerifierFixed(sw *sweep) {
 		}
 	}
 }
+
+// optsReading: an opaque key that looks at the SignerOpts it is given, as KMS / PKCS#11 backed
+// crypto.Signers do: nil opts or another hash than the algorithm's is an error
+type optsReading struct {
+	inner crypto.Signer
+	want  crypto.Hash
+}
+
+func (o optsReading) Public() crypto.PublicKey { return o.inner.Public() }
+func (o optsReading) Sign(rd io.Reader, digest []byte, opts crypto.SignerOpts) ([]byte, error) {
+	if opts == nil {
+		return nil, fmt.Errorf("harness: nil crypto.SignerOpts")
+	}
+	if opts.HashFunc() != o.want {
+		return nil, fmt.Errorf("harness: SignerOpts name hash %v, the algorithm's is %v", opts.HashFunc(), o.want)
+	}
+	if len(digest) != o.want.Size() {
+		return nil, fmt.Errorf("harness: digest of %d bytes for %v", len(digest), o.want)
+	}
+	return o.inner.Sign(rd, digest, opts)
+}
